@@ -237,7 +237,9 @@ package index
 // Writes a temporary file next to the shard; no modelled memory is written.
 //@ func index.JsonMarshalRepoMetaTemp
 //@   trusted
-//@   assigns nothing
+//@   ensures result2 != nil ==> effectFailed
+//@   ensures result2 == nil ==> effectFailed == old(effectFailed)
+//@   assigns effectFailed
 
 // Exactly the repositories with the given ID get the requested tombstone
 // value, every other one keeps its own (isolation, idempotence); and success
